@@ -10,6 +10,7 @@ from fractions import Fraction as Fr
 import numpy as np
 
 import common as C
+import layouts as L
 import fuzzylite as fl
 
 PID = "C03"
@@ -427,6 +428,12 @@ def check_arrays(cls, p, h, xs, term=None):
                 if not same:
                     return False, (f"{cls}{tuple(p)} height {h}: membership({batch!r} as shape {shape}) gives {w!r} at x={x!r}, "
                                    f"the scalar call gives {u!r}")
+    # the same points held in arrays of every memory layout / container, and (for one configuration in eight) a long array
+    long = sum(repr((cls, list(p))).encode()) % 8 == 0
+    ok, d = L.check_elementwise(lambda a: term.membership(a), xs, f"{cls}{tuple(p)} height {h}: membership",
+                                scalar=lambda x: impl(term, x), long=long)
+    if not ok:
+        return False, d
     return True, "ok"
 
 
